@@ -1,24 +1,6 @@
-(** Tie 2: the facts regenerated from /repo's current sources (Generated.v) agree with what the
-    model and the theorems assume. Re-checked by coqc whenever Generated.v changes. *)
-From MowCli Require Import Base Lexer Parser Nfa Generated.
-
-Lemma tie_isLowercase c : g_isLowercase c = isLowercase c.
-Proof. reflexivity. Qed.
-Lemma tie_isUppercase c : g_isUppercase c = isUppercase c.
-Proof. reflexivity. Qed.
-Lemma tie_isDigit c : g_isDigit c = isDigit c.
-Proof. reflexivity. Qed.
-Lemma tie_isLetter c : g_isLetter c = isLetter c.
-Proof. reflexivity. Qed.
-Lemma tie_isOkInArg c : g_isOkInArg c = isOkInArg c.
-Proof. destruct c as [[] [] [] [] [] [] [] []]; reflexivity. Qed.
-Lemma tie_isOkLongOpt c f : g_isOkLongOpt c f = isOkLongOpt c f.
-Proof. destruct f; destruct c as [[] [] [] [] [] [] [] []]; reflexivity. Qed.
-
-Lemma tie_priorities :
-  (g_priority_opt, g_priority_options, g_priority_arg, g_priority_optsEnd, g_priority_shortcut)
-  = (priority (LOpt 0), priority (LGrp []), priority (LArg 0), priority LDD, priority LEps).
-Proof. reflexivity. Qed.
+(** Tie 2, shared state: the package-level variables of the library and the functions assigning them,
+    regenerated from /repo's current sources (Generated.v), are what C20's theorem assumes. Imported by PC20. *)
+From MowCli Require Import Base Generated.
 
 (** the shared store of the library: the three indirections of cli.go and the two sentinel
     errors; none of them is assigned by any function of the library *)
@@ -27,23 +9,3 @@ Lemma tie_package_state :
                     ("errVersionRequested", ".")]%string
   /\ g_package_var_writes = [].
 Proof. split; reflexivity. Qed.
-
-(** the error messages of the lexer and of the parser that the model uses are string literals of the
-    current sources (format strings for the parametrised ones; the bracket names are the lexer's token
-    type names) *)
-Definition has_lit (l : list String.string) (m : str) : bool := existsb (fun s => str_eqb (lit s) m) l.
-
-Lemma tie_lexer_messages :
-  forallb (has_lit g_strings_lexer)
-          [msg_dot2; msg_dot1; msg_optname_eof; msg_optname; msg_invalid; msg_longname; msg_eqlt; msg_unclosed;
-           msg_optvalue; msg_unexpected; s_options] = true.
-Proof. vm_compute. reflexivity. Qed.
-
-Lemma tie_parser_messages :
-  forallb (has_lit g_strings_parser)
-          [msg_eoi; msg_no_opts; msg_atom; Lexer.msg_unexpected;
-           msg_undecl_arg (lit "%s"); msg_undecl_opt (lit "%s"); msg_undecl_opt (lit "-%s")] = true
-  /\ has_lit g_strings_parser (lit "Was expecting %v") = true
-  /\ msg_expect_par = lit "Was expecting " ++ lit "ClosePar" /\ msg_expect_sq = lit "Was expecting " ++ lit "CloseSq"
-  /\ forallb (has_lit g_strings_lexer) [lit "ClosePar"; lit "CloseSq"] = true.
-Proof. vm_compute. repeat split; reflexivity. Qed.
